@@ -23,7 +23,7 @@ def props_of(event, clause):
 
 
 def run_traces(out, prop, tier):
-    ntraces, nsteps = (40, 20) if tier == "quick" else (700, 30)
+    ntraces, nsteps = (20, 15) if tier == "quick" else (500, 30)
     total = 0
     events = 0
     for uid in range(len(trace_driver.UNIVERSES)):
